@@ -184,6 +184,17 @@ def parse(spec, s):
     return ("err", None)
 
 
+def claimers(spec, s):
+    n = 0
+    for v in spec.variants:
+        if v.disabled or v.default:
+            continue
+        ci = effective_ci(v, spec.aci)
+        if any(sp == s or (ci and fold_ascii(sp) == fold_ascii(s)) for sp in spellings(v, spec.serialize_all)):
+            n += 1
+    return n
+
+
 def overlaps(spec):
     """True when two (enabled, non-default) variants could both claim some input — outside C01's domain."""
     claimed = []
